@@ -7,7 +7,7 @@ from .. import oracles as O
 
 from ..validate import validation_group
 BOUNDS = {'quick': {'identifier_list_len': 2, 'numeric identifiers': 'full u64', 'components': 'u64 <= MAX_SAFE_INTEGER'},
-          'thorough': {'identifier_list_len': 5, 'numeric identifiers': 'full u64', 'components': 'u64 <= MAX_SAFE_INTEGER'}}
+          'thorough': {'identifier_list_len': '6 (order), 4 (laws on triples, hash)', 'numeric identifiers': 'full u64', 'components': 'u64 <= MAX_SAFE_INTEGER'}}
 OUTSIDE = ['identifier lists longer than the bound', 'contents of alphanumeric identifiers: String comparison is trusted to be byte-wise (abstract ordered tokens)',
            'slice::sort / BinaryHeap consistency follows from the total order by the std contract (not encoded); Iterator::max/min are covered under C14']
 ASSUMPTIONS = ['String: Ord is byte-wise lexicographic (std documentation)', 'Hasher modelled as an uninterpreted mixing function: equal traces give equal hashes',
@@ -15,10 +15,10 @@ ASSUMPTIONS = ['String: Ord is byte-wise lexicographic (std documentation)', 'Ha
 
 
 def groups(tier):
-    L = 2 if tier == 'quick' else 5
+    L = 2 if tier == 'quick' else 6
     gs = [{'name': 'order-L%d' % L, 'fn': order_group, 'args': {'L': L}},
-          {'name': 'laws-L%d' % min(L, 3), 'fn': laws_group, 'args': {'L': min(L, 3)}},
-          {'name': 'hash-L%d' % min(L, 3), 'fn': hash_group, 'args': {'L': min(L, 3)}}]
+          {'name': 'laws-L%d' % min(L, 4), 'fn': laws_group, 'args': {'L': min(L, 4)}},
+          {'name': 'hash-L%d' % min(L, 4), 'fn': hash_group, 'args': {'L': min(L, 4)}}]
     if tier != 'quick':
         gs.append({'name': 'order-L1', 'fn': order_group, 'args': {'L': 1}})
         gs.append({'name': 'kani-k4', 'fn': kani_group, 'args': {}, 'timeout_s': 1200})
